@@ -59,6 +59,15 @@ def makeChunks (s : Bytes) (n : Nat) : List Bytes := chunksOf n s
 /-- one frame built by `split` : STX item cs CRLF -/
 def mkFrame (item : Bytes) : Bytes := [STX] ++ item ++ makeChecksum item ++ CRLF
 
+/-- the frames `split` yields for the chunk list, the first one numbered `n`:
+    `enumerate(chunks[:-1])` gives intermediate (ETB) frames numbered `(idx + frame) % 8`, the last
+    chunk (which carries the CR that ends the text) gives the final (ETX) frame numbered
+    `(len(chunks[:-1]) + frame) % 8` -/
+def framesFrom (n : Nat) : List Bytes → List Bytes
+  | [] => []
+  | [last] => [mkFrame (natDigits (n % 8) ++ last ++ [ETX])]
+  | c :: c' :: cs => mkFrame (natDigits (n % 8) ++ c ++ [ETB]) :: framesFrom (n + 1) (c' :: cs)
+
 /-- utils.split (as a list; the generator is consumed by `list(...)` in codec.encode).
     `size` is a natural number here; `None` and negative sizes are handled by the callers. -/
 def split (msg : Bytes) (size : Nat) : Except Err (List Bytes) :=
@@ -74,12 +83,7 @@ def split (msg : Bytes) (size : Nat) : Except Err (List Bytes) :=
   else
     let fr := (frame.headD 48).toNat - 48
     let chunks := makeChunks body (size - 7)
-    match chunks.getLast? with
-    | none => .error .index
-    | some last =>
-      let inter := chunks.dropLast
-      let frames := inter.zipIdx.map fun (chunk, idx) =>
-        mkFrame (natDigits ((idx + fr) % 8) ++ chunk ++ [ETB])
-      .ok (frames ++ [mkFrame (natDigits ((inter.length + fr) % 8) ++ last ++ [ETX])])
+    if chunks.isEmpty then .error .index          -- chunks[-1]
+    else .ok (framesFrom fr chunks)
 
 end Astm
